@@ -23,6 +23,7 @@ def run(ctx, prop="C07", family="C07", engines_each=True):
             for eng in ("numpy", "normal"):
                 ev = lastext.read_event(prop, inst, concrete, engines=(eng,), names=names)
                 events.append(ev)
+                lastext.engine_drift(ctx, inst, ev, eng)
                 meta.append({"tag": inst["tag"], "engine": eng, "concrete": concrete})
                 ctx.evaluations += 1
                 ctx.case([inst["tag"], eng])
